@@ -1,9 +1,10 @@
 #!/usr/bin/env python3
-"""tools/confirm_seeded.py <worktree> <property-id>: re-verifies every change<i> an agent left in <worktree>/OUT
+"""tools/confirm_seeded.py <worktree> <property-id> [round-tag]: re-verifies every change<i> an agent left in <worktree>/OUT
 (compiles, stock suite passes with it, demo fails with it, demo passes without) and stores the confirmed ones under
 /verif/seeded/<ID>-<i>/ (patch.diff, demo_test.go, meta.json)."""
 import glob, json, os, re, shutil, subprocess, sys
 wt, pid = sys.argv[1], sys.argv[2]
+round_tag = sys.argv[3] + "-" if len(sys.argv) > 3 else ""
 ENV = dict(os.environ, GOFLAGS="-mod=mod", GOPROXY="off", GOSUMDB="off", GOTOOLCHAIN="local")
 def sh(cmd, timeout=600):
     p = subprocess.run(cmd, cwd=wt, shell=True, env=ENV, stdout=subprocess.PIPE, stderr=subprocess.STDOUT, text=True, timeout=timeout)
@@ -31,7 +32,7 @@ for diff in sorted(glob.glob(os.path.join(wt, "OUT", "change*.diff"))):
     print(pid, i, "CONFIRMED" if ok else "REJECTED", "stock_ok=%s demo_fails_with=%s demo_passes_without=%s" % (stock_ok, fails_with, passes_without), "-", meta.get("summary", "")[:150])
     if not ok:
         print(out[-400:], out1[-400:], out2[-400:]); continue
-    d = os.path.join("/verif/seeded", "%s-%s" % (pid, i))
+    d = os.path.join("/verif/seeded", "%s-%s%s" % (pid, round_tag, i))
     os.makedirs(d, exist_ok=True)
     shutil.copy(diff, os.path.join(d, "patch.diff"))
     shutil.copy(demo, os.path.join(d, "demo_test.go.txt"))
